@@ -65,7 +65,7 @@ def pt_traj(rng, n, npts=None):
 
 
 def generate(rng, tier):
-    n = {"quick": 60, "thorough": 1500, "search": 300}.get(tier, 60)
+    n = {"quick": 150, "thorough": 1500, "search": 300}.get(tier, 60)
     cases = []
     for i in range(n):
         steps = rng.choice([1, 2, 5, 20, 60, 300 if (tier != "quick" or i % 20 == 0) else 40])
